@@ -422,7 +422,10 @@ pub fn c05(scn: &Scenario, tr: &[Ev]) -> Vec<Violation> {
         // expected result from the hook trace
         let start = ax.on_start_exit.as_ref().map(|x| x.1.clone()).unwrap_or_default();
         let stop = ax.on_stop_exit.as_ref().map(|x| x.1.clone());
-        let stop_k = ax.on_stop_called.first().map(|x| x.1);
+        // killed=true exactly when a kill signal ended the actor: decided from the kill() calls in the trace,
+        // not from what on_stop was told
+        let stop_k = ax.on_stop_called.first().map(|(s, _)| ix.kills_of(a).any(|o| o.start < *s && matches!(o.res, Some(Res::Ok))));
+        let told_k = ax.on_stop_called.first().map(|x| x.1);
         let parse_err = |s: &str| s.strip_prefix("Err(").and_then(|x| x.strip_suffix(')')).and_then(|x| x.parse::<u32>().ok());
         let want: (String, Option<String>, Option<bool>, Option<u32>, bool) = if let Some(t) = parse_err(&start) {
             ("Failed".into(), Some("OnStart".into()), Some(false), Some(t), false)
@@ -455,7 +458,7 @@ pub fn c05(scn: &Scenario, tr: &[Ev]) -> Vec<Violation> {
                         let inv = ax.runs.iter().find(|r| r.called == *i).map(|r| r.inv).unwrap_or(0);
                         log.push(format!("run{inv}"))
                     }
-                    Hook::OnStop => log.push(format!("on_stop:{}", stop_k.unwrap_or(false))),
+                    Hook::OnStop => log.push(format!("on_stop:{}", told_k.unwrap_or(false))),
                     Hook::Task => {}
                 }
             }
